@@ -38,6 +38,16 @@ type preState struct {
 	Leased int // oldest rows leased (1 h lease at a frozen clock)
 	Dead   int // oldest rows moved to the DLQ
 	Probe  bool
+	Family bool // "large batch vs capacity" family: drop_oldest victims are checked to be the oldest queued rows
+}
+
+// capPre is the pre-state of the capacity family: max_depth depth, queued rows q0..q<queued-1> (q0 oldest).
+func capPre(depth int, drop bool, queued int) preState {
+	pol := "reject"
+	if drop {
+		pol = "drop_oldest"
+	}
+	return preState{Name: fmt.Sprintf("cap:depth=%d/%s/queued=%d", depth, pol, queued), Depth: depth, Drop: drop, Queued: queued, Family: true}
 }
 
 func (p preState) total() int { return p.Queued + p.Leased + p.Dead }
@@ -161,17 +171,35 @@ func (e *env) close() {
 }
 
 func seedTime(i int) time.Time {
-	return time.Unix(0, qsys.T0).UTC().Add(time.Duration(i-10) * time.Second)
+	return time.Unix(0, qsys.T0).UTC().Add(time.Duration(i-2000) * time.Second)
 }
 
 // seed fills the store with the pre-state through the Store API and records its dump.
 func (e *env) seed() error {
 	st := e.sys.Store
-	for i := 0; i < e.pre.total(); i++ {
-		err := st.Enqueue(queue.Envelope{ID: fmt.Sprintf("q%d", i), Route: rPull, Target: "pull", ReceivedAt: seedTime(i),
-			Payload: []byte("seed"), Headers: map[string]string{"X-Seed": "1"}})
-		if err != nil {
-			return fmt.Errorf("seed enqueue q%d: %w", i, err)
+	row := func(i int) queue.Envelope {
+		return queue.Envelope{ID: fmt.Sprintf("q%d", i), Route: rPull, Target: "pull", ReceivedAt: seedTime(i),
+			Payload: []byte("seed"), Headers: map[string]string{"X-Seed": "1"}}
+	}
+	if total := e.pre.total(); total <= 8 {
+		for i := 0; i < total; i++ {
+			if err := st.Enqueue(row(i)); err != nil {
+				return fmt.Errorf("seed enqueue q%d: %w", i, err)
+			}
+		}
+	} else { // large pre-states: store-level batches of at most 100 rows that always fit
+		be, ok := st.(queue.BatchEnqueuer)
+		if !ok {
+			return fmt.Errorf("seed: store is no BatchEnqueuer")
+		}
+		for lo := 0; lo < total; lo += 100 {
+			var rows []queue.Envelope
+			for i := lo; i < total && i < lo+100; i++ {
+				rows = append(rows, row(i))
+			}
+			if n, err := be.EnqueueBatch(rows); err != nil || n != len(rows) {
+				return fmt.Errorf("seed batch at q%d: %d rows, %v", lo, n, err)
+			}
 		}
 	}
 	if n := e.pre.Dead + e.pre.Leased; n > 0 {
@@ -470,23 +498,34 @@ func runCase(e *env, ps pathSpec, ks []kind, raw []byte, desc caseDesc, tl *tall
 		cause, reason, causeClass = "queue-full", "queue-full", "full"
 	}
 
+	if accepted { // whatever the reference says: a stored message has exactly one target and it is one of its route's targets
+		for _, m := range postMsgs {
+			if _, old := e.preRows[m.ID]; old {
+				continue
+			}
+			if rt, ok := refRoutes[m.Route]; !ok || !contains(rt.targets, m.Target) {
+				fail("success-shape:target-not-in-route-targets", "stored message %q has route %q target %q, which is not one of the route's targets", m.ID, m.Route, m.Target)
+				break
+			}
+		}
+	}
 	switch {
 	case expectAccept && !accepted:
 		fail("rejected-acceptable:"+reply.Code, "every item is acceptable and the batch fits, but publish answered %d %q", status, reply.Code)
 		if postDump != e.preDump {
-			fail("not-atomic:rejected-acceptable", "rejected request changed the queue\n before:\n%s after:\n%s", e.preDump, postDump)
+			fail("not-atomic:rejected-acceptable", "rejected request changed the queue\n%s", dumpDiff(e.preRows, postRows))
 		}
 	case expectAccept && accepted:
 		checkSuccess(e, ps, items, status, jsonErr, reply, postMsgs, postRows, fail)
 	case !expectAccept && accepted:
-		fail("accepted:"+reason, "reference rejects (%s: %v) but publish answered %d published=%v; queue before:\n%s after:\n%s",
-			cause, reasonsAt(offending, lowest), status, deref(reply.Published), e.preDump, postDump)
+		fail("accepted:"+reason, "reference rejects (%s: %v) but publish answered %d published=%v\n%s",
+			cause, reasonsAt(offending, lowest), status, deref(reply.Published), dumpDiff(e.preRows, postRows))
 	default:
 		if status < 400 || status > 599 || jsonErr != nil || strings.TrimSpace(reply.Code) == "" {
 			fail("unstructured-error:"+reason, "rejection is not a structured 4xx/5xx error (json error: %v)", jsonErr)
 		}
 		if postDump != e.preDump {
-			fail("not-atomic:"+reason, "rejected request (%s) changed the queue\n before:\n%s after:\n%s", cause, e.preDump, postDump)
+			fail("not-atomic:"+reason, "rejected request (%s) changed the queue\n%s", cause, dumpDiff(e.preRows, postRows))
 		}
 		switch {
 		case !reqOK || !bodyOK || lowest < 0:
@@ -551,6 +590,39 @@ func runCase(e *env, ps pathSpec, ks []kind, raw []byte, desc caseDesc, tl *tall
 		}
 	}
 	return out, nil
+}
+
+// dumpDiff describes how the stored rows changed (row counts and the first few added / removed / changed rows).
+func dumpDiff(pre, post map[string]string) string {
+	var added, removed, changed []string
+	for id, row := range post {
+		if old, ok := pre[id]; !ok {
+			added = append(added, row)
+		} else if old != row {
+			changed = append(changed, old+" -> "+row)
+		}
+	}
+	for id, row := range pre {
+		if _, ok := post[id]; !ok {
+			removed = append(removed, row)
+		}
+	}
+	var b strings.Builder
+	fmt.Fprintf(&b, " queue rows before: %d, after: %d; added %d, removed %d, changed %d", len(pre), len(post), len(added), len(removed), len(changed))
+	for _, part := range []struct {
+		name string
+		rows []string
+	}{{"added", added}, {"removed", removed}, {"changed", changed}} {
+		sort.Strings(part.rows)
+		for i, row := range part.rows {
+			if i == 4 {
+				fmt.Fprintf(&b, "\n  %s: … %d more", part.name, len(part.rows)-4)
+				break
+			}
+			fmt.Fprintf(&b, "\n  %s: %s", part.name, row)
+		}
+	}
+	return b.String()
 }
 
 func reasonsAt(off [][]string, i int) []string {
@@ -640,7 +712,7 @@ func checkSuccess(e *env, ps pathSpec, items []itemSpec, status int, jsonErr err
 		if m.Route != route {
 			bad("route", m.Route, route)
 		}
-		if m.Target != wantTarget || !contains(rt.targets, m.Target) {
+		if m.Target != wantTarget {
 			bad("target", m.Target, wantTarget)
 		}
 		if m.State != "queued" {
@@ -706,6 +778,14 @@ func checkSuccess(e *env, ps pathSpec, items []itemSpec, status int, jsonErr err
 	}
 	if evicted != wantEvicted {
 		fail("success-shape:evictions", "publish of %d items removed %d pre-existing rows, want %d (%s)", n, evicted, wantEvicted, e.pre.Name)
+	}
+	if e.pre.Family { // all pre-existing rows are queued, q0 oldest: exactly q0..q<wantEvicted-1> go
+		for i := 0; i < e.pre.Queued; i++ {
+			if _, still := postRows[fmt.Sprintf("q%d", i)]; still != (i >= wantEvicted) {
+				fail("success-shape:eviction-victims", "after evicting %d rows, q%d present=%v (drop_oldest must drop the oldest queued rows)", wantEvicted, i, still)
+				break
+			}
+		}
 	}
 	for _, m := range postMsgs {
 		if _, old := e.preRows[m.ID]; !old && !newIDs[m.ID] {
@@ -1011,6 +1091,132 @@ func runProbes(worker int, backend string, c *collector) {
 	c.merge(tl, fs)
 }
 
+// ---- large batch vs capacity ----------------------------------------------------------------------------------
+
+var (
+	capDepths = []int{300, 600, 1000}
+	capSizes  = []int{256, 257, 512, 700, 1000}
+	capDupPos = func(n int) []int { return []int{0, 255, 256, 257, n - 1} }
+)
+
+func capFrees(n int) []int { return []int{0, 1, 255, 256, 257, 511, 512, 700, n - 1, n, n + 1} }
+
+type capUnit struct {
+	backend string
+	path    pathSpec
+	depth   int
+	drop    bool
+}
+
+// runCapacity: batches of 256..1000 acceptable items against max_depth 300/600/1000 with free capacity around the
+// batch size and around multiples of 256 (a store that writes a large batch in several transactions must not
+// leave a part of a refused batch behind), plus one unacceptable id (already stored / duplicate of item 0) at
+// positions 0, 255, 256, 257, n-1. One store and application per unit; it is re-seeded only when the number of
+// pre-filled rows changes or a request changed the queue.
+func runCapacity(worker int, u capUnit, deadline time.Time, c *collector) {
+	infra := func(err error) {
+		c.mu.Lock()
+		c.infra = append(c.infra, err.Error())
+		c.mu.Unlock()
+	}
+	// distinct numbers of pre-filled rows, ascending
+	type job struct {
+		n  int
+		at map[int]string
+	}
+	jobs := map[int][]job{}
+	for _, n := range capSizes {
+		for _, f := range capFrees(n) {
+			if f < 0 || f > u.depth {
+				continue
+			}
+			jobs[u.depth-f] = append(jobs[u.depth-f], job{n: n})
+		}
+		// identity defects inside a large batch: queue holds q0 (1 row) resp. is full
+		for _, queued := range []int{1, u.depth} {
+			for _, pos := range capDupPos(n) {
+				if pos >= n {
+					continue
+				}
+				jobs[queued] = append(jobs[queued], job{n: n, at: map[int]string{pos: "id_in_queue"}})
+				if pos > 0 {
+					jobs[queued] = append(jobs[queued], job{n: n, at: map[int]string{pos: "dup_of_first"}})
+				}
+			}
+		}
+	}
+	var fills []int
+	for q := range jobs {
+		fills = append(fills, q)
+	}
+	sort.Ints(fills)
+
+	e, err := newEnv(worker, u.backend, capPre(u.depth, u.drop, fills[0]), policies[0])
+	if err != nil {
+		infra(err)
+		return
+	}
+	defer e.close()
+	all := kindsFor(u.path)
+	vm, _ := kindByName(all, "valid_min")
+	tl := newTally()
+	var fs []finding
+	seen := map[string]bool{}
+	for _, q := range fills {
+		if time.Now().After(deadline) {
+			c.mu.Lock()
+			c.capped = true
+			c.mu.Unlock()
+			break
+		}
+		if e.pre.Queued != q {
+			e.pre = capPre(u.depth, u.drop, q)
+			if err := e.rebuild(); err != nil {
+				infra(err)
+				return
+			}
+		}
+		for _, j := range jobs[q] {
+			d := caseDesc{Kinds: []string{vm.Name}, Repeat: j.n, At: j.at}
+			if seen[fmt.Sprint(q, d.Repeat, d.At)] {
+				continue
+			}
+			seen[fmt.Sprint(q, d.Repeat, d.At)] = true
+			ks := make([]kind, j.n)
+			for i := range ks {
+				ks[i] = vm
+			}
+			for pos, name := range j.at {
+				ks[pos], _ = kindByName(all, name)
+			}
+			out, err := runCase(e, u.path, ks, nil, d, tl)
+			fs = append(fs, out...)
+			if err != nil {
+				infra(err)
+				return
+			}
+		}
+	}
+	tl.counters["store_rebuilds"] += int64(e.rebuilds)
+	tl.counters["capacity_cases"] = tl.counters["evaluations"]
+	tl.counters["capacity_units"]++
+	c.merge(tl, fs)
+}
+
+func capUnits() []capUnit {
+	var us []capUnit
+	for _, backend := range []string{"sqlite", "memory"} {
+		for _, ps := range paths[:2] {
+			for _, depth := range capDepths {
+				for _, drop := range []bool{false, true} {
+					us = append(us, capUnit{backend: backend, path: ps, depth: depth, drop: drop})
+				}
+			}
+		}
+	}
+	return us
+}
+
 func buildUnits(r *runner.Run) []unit {
 	var us []unit
 	for _, backend := range []string{"memory", "sqlite"} {
@@ -1033,6 +1239,18 @@ func buildUnits(r *runner.Run) []unit {
 }
 
 func findPre(name string) (preState, bool) {
+	var depth, queued int
+	var pol string
+	if strings.HasPrefix(name, "cap:") {
+		parts := strings.Split(strings.TrimPrefix(name, "cap:"), "/")
+		if len(parts) == 3 {
+			if _, err := fmt.Sscanf(parts[0]+" "+parts[2], "depth=%d queued=%d", &depth, &queued); err == nil {
+				pol = parts[1]
+				return capPre(depth, pol == "drop_oldest", queued), true
+			}
+		}
+		return preState{}, false
+	}
 	for _, p := range append(append([]preState{}, preStates...), probePre) {
 		if p.Name == name {
 			return p, true
@@ -1150,30 +1368,37 @@ func TestCheck(t *testing.T) {
 	if workers < 2 {
 		workers = 2
 	}
-	ch := make(chan unit)
+	ch := make(chan func(w int))
 	var wg sync.WaitGroup
 	for w := 0; w < workers; w++ {
 		wg.Add(1)
 		go func(w int) {
 			defer wg.Done()
-			if w < 2 {
-				runProbes(w, []string{"memory", "sqlite"}[w], c)
-			}
-			for u := range ch {
+			for job := range ch {
 				if time.Now().After(deadline) {
 					c.mu.Lock()
 					c.capped = true
 					c.mu.Unlock()
 					continue
 				}
-				runUnit(w, u, deadline, c)
+				job(w)
 			}
 		}(w)
 	}
+	// longest jobs first: the capacity family (SQLite before memory), the probes, then the units by weight
+	for _, cu := range capUnits() {
+		cu := cu
+		ch <- func(w int) { runCapacity(w, cu, deadline, c) }
+	}
+	for _, backend := range []string{"sqlite", "memory"} {
+		backend := backend
+		ch <- func(w int) { runProbes(w, backend, c) }
+	}
 	planned := 0
 	for _, u := range units {
+		u := u
 		planned += u.weight
-		ch <- u
+		ch <- func(w int) { runUnit(w, u, deadline, c) }
 	}
 	close(ch)
 	wg.Wait()
@@ -1260,7 +1485,10 @@ func TestCheck(t *testing.T) {
 		"} x path{global, scoped ep1 (pull), scoped ep2 (2 deliver targets); reduced alphabet on scoped epdir/epoff/eppoff/unknown endpoint} x batches: "+
 		"every item kind alone, every ordered pair of ALL kinds (so every kind at both positions against every other kind), one batch of 4 acceptable items"+
 		runner.Pick(r, "", "; thorough: every ordered triple of the CORE kinds wherever the request-level policy admits the request")+
-		"; plus per backend body-level probes and 1000/1001-item batches with one unacceptable item at index 0,1,500,998,999. "+
+		"; plus per backend body-level probes and 1000/1001-item batches with one unacceptable item at index 0,1,500,998,999"+
+		"; plus the large-batch-vs-capacity family on both backends, global and scoped ep1: max_depth {300,600,1000} x {reject,drop_oldest} x batch size n {256,257,512,700,1000} acceptable items x free capacity "+
+		"{0,1,255,256,257,511,512,700,n-1,n,n+1} (pre-filled with queued rows q0.. oldest first), and in such batches one item whose id is already stored / duplicates item 0 at index 0,255,256,257,n-1 "+
+		"(queue holding one row and full queue); drop_oldest must evict exactly the needed number of oldest queued rows or leave everything untouched. "+
 		"Oracle: reference acceptability/admissibility from the statement and docs; accept => 200, published=n, every item stored with requested id/route/target/payload/headers/trace/received_at/next_run_at "+
 		"in the shape of a real ingress message, other rows untouched except exact drop_oldest evictions of queued rows, depth <= max_depth, listed by GET /messages; "+
 		"reject => structured 4xx/5xx, row dump (all columns) identical, item_index = lowest unacceptable index. "+
@@ -1268,7 +1496,8 @@ func TestCheck(t *testing.T) {
 	r.Assume("error codes and HTTP status values per cause are recorded (observed_verdicts_by_first_cause) but not asserted: the statement only demands a structured error")
 	r.Assume("which queued row drop_oldest evicts is not asserted here (C12); only the number of evictions and that evicted rows were queued")
 	r.Assume("the store is created by the harness (qsys: frozen clock, max_depth 3) and handed to app.VerifBoot; queue_limits in the DSL text mirror it; Postgres is not executed")
-	r.Assume("batches between 4 and 999 items and route/endpoint sets other than the 10-route configuration in dslText are not enumerated")
+	r.Assume("batches of 4..999 items are covered only by the capacity family (all-acceptable or one identity defect) and the 1000-item probes; route/endpoint sets other than the 10-route configuration in dslText are not enumerated")
+	r.Assume("targets are exact keys: a letter-case variant of an allowed target counts as not allowed (pull dequeues target \"pull\", the dispatcher looks deliveries up by exact URL)")
 	r.Finish()
 }
 
